@@ -437,7 +437,7 @@ impl Property for C07 {
         }
         let mut any_violating = false;
         let ctx = |l: usize| -> String { format!("line {l}: {:?}\nopts {opts:?}\nrecorded skipped ranges {recorded:?}, skip nodes at lines {skip_lines:?}\n--- emitted ---\n{text}", text.lines().nth(l - 1).unwrap_or("")) };
-        let mut known = |o: &mut Outcome, class: &str| {
+        let known = |o: &mut Outcome, class: &str| {
             let tag = format!("known-class:{class}");
             if !o.excluded.contains(&tag) {
                 o.excluded.push(tag);
